@@ -1676,6 +1676,124 @@ mod n {
         });
     }
 
+    // every model obtained from the full model by changing ONE value in its JSON text - a number to 0 / 1 / its negative,
+    // a string to "", a flag flipped, a key removed, a list emptied - and that still loads, round-trips as well
+    fn value_at<'a>(root: &'a mut serde_json::Value, path: &[String]) -> Option<&'a mut serde_json::Value> {
+        let mut cur = root;
+        for k in path {
+            cur = match cur {
+                serde_json::Value::Object(m) => m.get_mut(k)?,
+                serde_json::Value::Array(a) => a.get_mut(k.parse::<usize>().ok()?)?,
+                _ => return None,
+            };
+        }
+        Some(cur)
+    }
+
+    fn leaf_paths(v: &serde_json::Value, path: &mut Vec<String>, out: &mut Vec<(Vec<String>, usize)>) {
+        use serde_json::Value::*;
+        match v {
+            Object(map) => {
+                for (k, child) in map {
+                    path.push(k.clone());
+                    out.push((path.clone(), 5)); // key removed
+                    leaf_paths(child, path, out);
+                    path.pop();
+                }
+            }
+            Array(items) => {
+                if !items.is_empty() {
+                    out.push((path.clone(), 6)); // list emptied
+                }
+                for (i, child) in items.iter().enumerate().take(3) {
+                    path.push(i.to_string());
+                    leaf_paths(child, path, out);
+                    path.pop();
+                }
+            }
+            Number(_) => {
+                for kind in 0..3 {
+                    out.push((path.clone(), kind)); // 0, 1, negated
+                }
+            }
+            String(st) => {
+                if !(st.len() == 36 && Uuid::parse_str(st).is_ok()) {
+                    out.push((path.clone(), 3)); // ""
+                }
+            }
+            Bool(_) => out.push((path.clone(), 4)),
+            Null => {}
+        }
+    }
+
+    #[test]
+    fn n_c04_edited_models() {
+        let all: Vec<usize> = (0..N_TOGGLES).collect();
+        // two full models: every optional field present and different from its default / every one absent or default
+        let bases: Vec<serde_json::Value> = vec![
+            serde_json::from_str(&toggled_model(&[]).as_json().unwrap()).unwrap(),
+            serde_json::from_str(&toggled_model(&all[..]).as_json().unwrap()).unwrap(),
+        ];
+        let edits: Vec<Vec<(Vec<String>, usize)>> = bases.iter().map(|b| { let mut out = vec![]; leaf_paths(b, &mut vec![], &mut out); out }).collect();
+        const KINDS: [&str; 7] = ["number -> 0", "number -> 1", "number negated", "string -> \"\"", "flag flipped", "key removed", "list emptied"];
+        drive("C04.edited", "two generated models that carry every kind of element (optional fields all present / all absent), with ONE value of their JSON text changed (every number -> 0 / 1 / negated, every string -> \"\", every flag flipped, every key removed, every list emptied; first three items of each list): every edited text that still loads round-trips losslessly and idempotently", |c| {
+            let b = c.pick(bases.len());
+            let k = c.pick(edits[b].len());
+            let (path, kind) = &edits[b][k];
+            c.note(format!("base {} /{}: {}", b, path.join("/"), KINDS[*kind]));
+            let mut v = bases[b].clone();
+            let applied = match *kind {
+                5 => {
+                    let (last, parent) = path.split_last().unwrap();
+                    match value_at(&mut v, parent) {
+                        Some(serde_json::Value::Object(m)) => m.remove(last).is_some(),
+                        _ => false,
+                    }
+                }
+                _ => match value_at(&mut v, path) {
+                    Some(x) => {
+                        match (*kind, &*x) {
+                            (0, serde_json::Value::Number(_)) => *x = serde_json::json!(0),
+                            (1, serde_json::Value::Number(_)) => *x = serde_json::json!(1),
+                            (2, serde_json::Value::Number(n)) => *x = if n.is_f64() { serde_json::json!(-n.as_f64().unwrap()) } else { serde_json::json!(-n.as_i64().unwrap_or(0)) },
+                            (3, serde_json::Value::String(_)) => *x = serde_json::json!(""),
+                            (4, serde_json::Value::Bool(f)) => *x = serde_json::json!(!*f),
+                            (6, serde_json::Value::Array(_)) => *x = serde_json::json!([]),
+                            _ => {}
+                        }
+                        true
+                    }
+                    None => false,
+                },
+            };
+            if !applied {
+                return;
+            }
+            let text = v.to_string();
+            let m = match Model::from_json(&text) {
+                Ok(m) => m,
+                Err(_) => return, // the property quantifies over models
+            };
+            let json = m.as_json().unwrap_or_default();
+            let m2 = match Model::from_json(&json) {
+                Ok(x) => x,
+                Err(e) => {
+                    c.check("C04.loads_back", false, || format!("from_json failed on the model's own text: {}", e));
+                    return;
+                }
+            };
+            let (d1, d2) = (format!("{:?}", m), format!("{:?}", m2));
+            c.check("C04.lossless", d1 == d2, || {
+                let k = d1.bytes().zip(d2.bytes()).position(|(a, b)| a != b).unwrap_or(0);
+                let cut = |s: &str| { let (mut a, mut b) = (k.saturating_sub(60), (k + 60).min(s.len())); while !s.is_char_boundary(a) { a -= 1; } while !s.is_char_boundary(b) { b -= 1; } s[a..b].to_string() };
+                format!("loaded model differs near: ...{} <> ...{}", cut(&d1), cut(&d2))
+            });
+            c.check("C04.idempotent", m2.as_json().unwrap_or_default() == json, || "second serialisation differs from the first".to_string());
+            c.nontrivial(format!("{} {} {}", b, path.join("/"), kind));
+            c.sample(|| format!("base {} /{}: {} -> round-trips", b, path.join("/"), KINDS[*kind]));
+        });
+    }
+
     // every model file shipped with the repository loads and re-serialises to the same JSON value
     #[test]
     fn n_c04_shipped_models() {
